@@ -425,7 +425,8 @@ func (s *State) diffIOSACLs(al, bl []*cmd, diff []edit.Range) {
 	// Ignore move if both positions belong to the same block.
 	moveACL := func(a *cmdAndPos, b *cmd, before, i int, moveOK bool) {
 		defer func() { a.cmd = nil }()
-		if moveOK {
+		// Must not ignore move, if 'log' attribute has changed.
+		if moveOK && getPrintableCmd(a.cmd, s.a) == s.printNetspocCmd(b) {
 			oldID := idx2Block[a.pos]
 			if before > 0 && idx2Block[before-1] == oldID {
 				return
